@@ -135,7 +135,10 @@ def main():
   rep = vlib.Report(PROP, "proof")
   from translate import qtoolsops
   gen = qtoolsops.emit(vlib.GEN)
-  info = vlib.build_obligations(PROP, gen_files=[gen], extra_files=[os.path.join(vlib.COQ, "theories", "Link", "QToolsLink.v")])
+  from translate import layermapgen
+  lmgen = layermapgen.emit(vlib.GEN)
+  info = vlib.build_obligations(PROP, gen_files=[gen, lmgen], extra_files=[os.path.join(vlib.COQ, "theories", "Link", "QToolsLink.v"),
+                                                                          os.path.join(vlib.COQ, "theories", "Link", "LayerMapLink.v")])
   errs = rep.obligations(info, "coqc -Q coq/theories QV coq/theories/Properties/C18.v")
   for e in errs:
     rep.violation("obligation-" + os.path.basename(e["file"]), "proof obligation no longer checks: " + e["error"][-400:],
